@@ -28,6 +28,11 @@ def dec_label(x):
             return datetime.timedelta(days=x['td'])
         if 'fs' in x:
             return frozenset(dec_label(v) for v in x['fs'])
+        if 'dt64' in x:
+            return np.datetime64(x['dt64'], x['unit'])
+        if 'pydt' in x:
+            import datetime
+            return datetime.datetime.fromisoformat(x['pydt'])
         raise ValueError(x)
     return x
 
@@ -45,6 +50,10 @@ def enc_label(x):
         return {'period': str(x), 'freq': x.freqstr}
     if isinstance(x, pd.Timestamp):
         return {'ts': x.isoformat()}
+    if isinstance(x, np.datetime64):
+        return {'dt64': str(x), 'unit': np.datetime_data(x)[0]}
+    if isinstance(x, datetime.datetime):
+        return {'pydt': x.isoformat()}
     if isinstance(x, (np.integer,)):
         return int(x)
     if isinstance(x, (np.floating,)):
@@ -101,6 +110,12 @@ def spellings(desc, label):
         out.append(label.strftime('%Y-%m-%d'))
         if desc['freq'] == 'D':
             out.append(label.isoformat())
+        # the same instant as NumPy's datetime64 (in several units) and as a plain datetime: pandas resolves them all
+        out.append(np.datetime64(label.isoformat(), 'ns'))
+        out.append(np.datetime64(label.isoformat(), 's'))
+        if label == label.normalize():
+            out.append(np.datetime64(label.strftime('%Y-%m-%d'), 'D'))
+        out.append(label.to_pydatetime())
     return out
 
 
@@ -169,6 +184,10 @@ def pos(labs, label):
                     return i
             except Exception:  # noqa: BLE001
                 pass
+            continue
+        if isinstance(x, pd.Timestamp) and isinstance(label, np.datetime64):
+            if pd.Timestamp(label) == x:
+                return i
             continue
         if isinstance(x, pd.Timestamp) and isinstance(label, str):
             try:
